@@ -44,7 +44,7 @@ ASSUMPTIONS = [
 ]
 REQUIRED_COUNTERS = [
     "exports_judged", "model_accepted", "commands_compared", "manifest_compared", "certblock_compared",
-    "msign_compared", "bitflips", "reexports_judged", "cfg_path_exports", "cli_exports", "negative_controls",
+    "msign_compared", "bitflips", "reexports_judged", "cfg_path_exports", "cli_exports", "negative_controls", "wrong_signer_refused",
 ]
 CASE_TIMEOUT_S = 3000  # wall clock, generous: the machine may be shared
 WATCHDOG_S = {"quick": 3000, "thorough": 14400}
@@ -88,6 +88,8 @@ def cases(tier, seed):  # noqa: ARG001
         yield {"kind": "cli", "k": k}
     for k in range(200 if thorough else 2):
         yield {"kind": "bitflip_full", "k": k}
+    for k in range(240 if thorough else 24):
+        yield {"kind": "wrong_signer", "k": k}
 
 
 # --------------------------------------------------------------------------------------- monitors
@@ -1162,6 +1164,47 @@ def run_case(case, ctx):  # noqa: C901
             ctx.violation("sb31-cli-printed-rkth-differs", {"printed": shown, "independent": keys["rkth"].hex()})
         judge(ctx, data, keys, par, specs, 1, "cli", sig_extra={"family": fam})
         return
+
+    if kind == "wrong_signer":
+        # the signing key handed over is not the key the certificate block certifies (another key of the same curve): the
+        # build has to be refused - a file that comes out anyway cannot be authentic, the loader model says why
+        from spsdk.sbfile.sb31.images import SecureBinary31
+
+        keys = pick_keys(rng, isk_kind=["none", "same", "none", "other"][case["k"] % 4])
+        right = keys["signer"]
+        cand = [n for n in pki.names(pki.kind_of(right)) if n != right and n not in keys["roots"] and n != keys["isk"]]
+        wrong = core.pick(rng, cand)
+        par = gen_container_params(rng, keys)
+        fam = fams[case["k"] % len(fams)]
+        facts = family_facts(fam)
+        specs = gen_command_list(rng, tuple(n for n in facts["supported"] if n in ALL_CMDS), end_mod=rng.randrange(256), blocks=1, n_cmds=2)
+        path = "cfg" if case["k"] % 3 else "api"
+        sig = {"path": path, "directed": "wrong-signer", "isk": keys["isk_kind"]}
+        data = None
+        if path == "cfg":
+            wd = os.path.join(ctx.workdir, f"ws{case['k']}")
+            cfg, specs, keys2, par = build_config(ctx, rng, fam, facts, dict(keys, signer=wrong), par, specs, wd)
+            sig["cert_block"] = os.path.splitext(cfg["certBlock"])[1]
+            ok, sb = ctx.call(SecureBinary31.load_from_config, cfg, search_paths=[wd])
+            if ok:
+                ok, data = ctx.call(lambda: bytes(sb.export()))
+        else:
+            ok, sb = ctx.call(build_api, rng, fam, dict(keys, signer=wrong), par, specs)
+            if ok:
+                ok, data = ctx.call(lambda: bytes(sb.export()))
+        ctx.count("wrong_signer_builds")
+        if not ok:
+            ctx.count("wrong_signer_refused")
+            ctx.ok(dict(sig, outcome="refused"))
+            return
+        dev = {"rkth": keys["rkth"], "pck": par["pck"], "kdk_access_rights": par["rights"] if par["encrypted"] else 0, "encrypted": par["encrypted"]}
+        try:
+            rom.load(data, **dev)
+        except rom.Sb31Reject as e:
+            ctx.violation("sb31-built-with-a-signing-key-the-certificate-block-does-not-certify",
+                          dict(sig, family=fam, loader_model=e.code, certified=right, given=wrong))
+            return
+        raise core.Inconclusive("the loader model accepted a container signed with an uncertified key")
 
     if kind == "bitflip_full":
         # every single bit of a small container
